@@ -228,6 +228,9 @@ def run_shard(item):
                 explore_request(engine, schema, text, located, variables, root, {p: fault}, {}, "quick", out, text, cfg["label"])
             # a null *item* of a list (first / last): lists are completed concurrently or one by one
             for label, fault, value in c02.kinds_for(schema, fd, c02.NATURAL.get(p)):
+                if label in ("nonlist-empty-string", "nonlist-zero", "nonlist-empty-tuple"):
+                    # a falsy value that is not a list: refused whether the items would have been gathered or completed in turn
+                    explore_request(engine, schema, text, located, variables, root, {p: fault}, {p: value}, "quick", out, text, cfg["label"])
                 if label in ("item-null-first", "item-null-last", "item-null-at-137-of-150"):
                     # (the 150-item list: all completion orders, no injections -- every item adds callback gaps)
                     explore_request(engine, schema, text, located, variables, root, {p: fault}, {p: value}, "quick", out, text, cfg["label"],
